@@ -254,7 +254,8 @@ ARENA_PROPS = ["C01", "C02", "C03", "C04", "C06", "C07", "C08", "C09", "C10", "C
 def run_shard(mode, seed, count, maxops, first, outdir, tag):
     trace = os.path.join(outdir, "%s_%s.trace" % (mode, tag))
     rep = os.path.join(outdir, "%s_%s.report" % (mode, tag))
-    drv = bin_path(mode, "arena_driver")
+    # every other shard uses the padded binary (static EMPTY_CHUNK on the other residue mod 16)
+    drv = bin_path(mode, "arena_driver_pad" if tag.endswith(("1", "3", "5", "7", "9")) else "arena_driver")
     status = "ok"
     with open(trace, "w") as tf:
         try:
